@@ -43,7 +43,7 @@ pub fn run_shard(prop: &str, tier: &str, seed: u64, shard: u64, budget: Duration
     let shard_seed = seed.wrapping_mul(0x9E37_79B9_7F4A_7C15) ^ (shard + 1).wrapping_mul(0xD1B5_4A32_D192_ED03) ^ fx(prop);
     let _ = tier;
     if let Some(c) = props::by_name(prop) {
-        return crate::campaign::run_sched_campaign(&c, shard_seed, budget, max_iters);
+        return crate::campaign::run_campaign(c.as_ref(), shard_seed, budget, max_iters);
     }
     eprintln!("unknown property {prop}");
     std::process::exit(2)
@@ -279,17 +279,16 @@ pub fn replay(file: &str) -> i32 {
     let v: Value = serde_json::from_str(&s).unwrap_or(json!({}));
     let prop = v["property"].as_str().unwrap_or("");
     let iter_seed = v["iter_seed"].as_u64().unwrap_or(0);
-    let fi = v["family_idx"].as_u64().unwrap_or(0) as usize;
     println!("recorded: property={prop} monitor={} message={}", v["monitor"], v["message"]);
     let Some(c) = props::by_name(prop) else {
-        println!("no scheduler campaign named {prop}; the recorded trace is the witness");
+        println!("no campaign named {prop}; the recorded trace is the witness");
         return 0;
     };
     let mut hits = 0;
     let tries = 200;
     for _ in 0..tries {
         let mut rep = ShardReport::default();
-        crate::campaign::run_one_iteration(&c, fi, iter_seed, &mut rep);
+        c.iterate(iter_seed, &mut rep, Instant::now() + Duration::from_secs(60));
         if let Some(f) = rep.findings.first() {
             hits += 1;
             if hits == 1 {
